@@ -62,9 +62,16 @@ def result_on_path(body, path, env):
                 return ("const", 1 if c["bool"] else 0)
             return ("?", "const " + c.get("ty", ""))
         pl = o.get("c") or o.get("m")
-        if pl is None or pl["p"]:
-            return ("?", "projection")
-        return local(pl["l"], upto, depth + 1)
+        if pl is None:
+            return ("?", "operand")
+        v = local(pl["l"], upto, depth + 1)
+        for e in pl["p"]:
+            # tuple fields: `match (self, other)` binds through `(_3.0)` / `(_3.1)`
+            if e[0] == "f" and v[0] == "tuple" and e[1] < len(v[1]):
+                v = v[1][e[1]]
+            else:
+                return ("?", "projection %s of %s" % (e, v[0]))
+        return v
 
     def local(l, upto, depth=0):
         if depth > 30:
@@ -78,6 +85,8 @@ def result_on_path(body, path, env):
             r = payload
             if r["k"] == "agg" and r.get("ak") == "adt":
                 return ("variant", r["variant"])
+            if r["k"] == "agg" and r.get("ak") == "tuple":
+                return ("tuple", [operand(x, idx, depth) for x in r["ops"]])
             if r["k"] == "use":
                 return operand(r["o"], idx, depth)
             if r["k"] == "un" and r["op"] == "Not":
